@@ -47,6 +47,10 @@ OPAQUE_INDEX_TRAITS = (
 )
 
 
+# workspace functions that call their closure argument exactly once, unconditionally
+CALLS_CLOSURE_ONCE = ("libtw2_buffer::with_buffer", "libtw2_packer::with_packer")
+
+
 class Site:
     __slots__ = ("fn", "bb", "ln", "kind", "desc", "status", "why", "callee", "goals", "badset", "ord", "exp", "detail")
 
@@ -103,6 +107,7 @@ class PanicAnalysis:
         self.exempt_fns = tuple(exempt_fns)      # callee paths whose panics are by contract
         self.trusted_fns = tuple(trusted_fns)    # callee paths assumed not to panic (reviewed)
         self.stats = {"sites": 0, "discharged": 0, "exported": 0, "residual": 0, "bodies": 0}
+        self.closure_instantiated = set()
 
     def ir(self, body):
         r = self.irs.get(body.id)
@@ -179,13 +184,14 @@ class PanicAnalysis:
             # exportable? keep only the parameter-expressible part of each failing condition
             exp = []
             exportable = True
+            isc = body.kind == "Closure"
             for bad in failing:
-                eb = [l for l in bad if _arg_only(l)]
+                eb = [l for l in bad if _arg_only(l, isc)]
                 if site.kind == "panic-call":
                     # path condition of the panic block: drop what is not expressible (stronger
                     # requirement), but something must remain
-                    ef = [l for l in facts if _arg_only(l) and l.co]
-                    ef += [("ne", d) for d in fnes if _arg_only(d)]
+                    ef = [l for l in facts if _arg_only(l, isc) and l.co]
+                    ef += [("ne", d) for d in fnes if _arg_only(d, isc)]
                     eb = ef + eb
                     if not eb:
                         exportable = False
@@ -193,9 +199,9 @@ class PanicAnalysis:
                     exportable = False
                 else:
                     # facts over the parameters only strengthen the failing condition
-                    eb = eb + [l for l in facts if _arg_only(l) and l.co]
+                    eb = eb + [l for l in facts if _arg_only(l, isc) and l.co]
                 exp.append(eb)
-            if exportable and body.kind in ("Fn", "AssocFn") and body.argc > 0:
+            if exportable and body.kind in ("Fn", "AssocFn", "Closure") and body.argc > 0:
                 site.status = "exported"
                 fs.exports.append((site, exp))
                 self.stats["exported"] += 1
@@ -317,7 +323,7 @@ class PanicAnalysis:
                 return s, None
             # bad: ix >= len  <=> len - ix <= 0
             return s, [[l_len.sub(l_ix)]]
-        if msg.startswith("Overflow:"):
+        if msg.startswith("Overflow:") and msg.split(":")[1] not in ("Div", "Rem"):
             op = msg.split(":")[1]
             a, b = ops
             ty = ir.type_of(a) or ir.type_of(b)
@@ -379,8 +385,9 @@ class PanicAnalysis:
         # everything else (division by zero, signed division overflow, ...): the assert's own
         # condition, negated, is the failing condition
         cond = ir.term_operand(bi, t["cond"])
-        detail = {"DivisionByZero": "div", "RemainderByZero": "rem"}.get(msg, msg.split(":")[0])
-        s = Site(body.id, bi, ln, "divzero" if msg in ("DivisionByZero", "RemainderByZero") else "assert",
+        detail = {"DivisionByZero": "div", "RemainderByZero": "rem", "Overflow:Div": "Div", "Overflow:Rem": "Rem"}.get(msg, msg.split(":")[0])
+        s = Site(body.id, bi, ln, "divzero" if msg in ("DivisionByZero", "RemainderByZero") else
+                 ("overflow" if msg.startswith("Overflow:") else "assert"),
                  "%s: %s" % (msg, stable(cond)), detail=detail)
         bad = rs.bool_constraints(cond, not t["expected"])
         if not bad:
@@ -490,9 +497,52 @@ class PanicAnalysis:
                 s = Site(body.id, bi, ln, "api", "%s(%s)" % (f, ", ".join(stable(a) for a in args[:3])), exp, detail=f)
                 s.status = "residual"
                 return s, None, []
+        # closures created here and handed straight to the callee (with_buffer(buf, |b| ...)): their
+        # exported preconditions over captured variables are obligations of this body
+        for a in (args if any(path_matches(f, w) for w in CALLS_CLOSURE_ONCE) else ()):
+            x = _strip_reborrow(a)
+            if x[0] == "ref":
+                x = x[2]
+            if x[0] == "agg" and x[1] == "closure" and x[2] in self.prog.bodies:
+                cs = self.summary(x[2])
+                if cs is None or not cs.exports:
+                    continue
+                self.closure_instantiated.add(x[2])
+                cbody = self.prog.bodies[x[2]]
+                env_ty = cbody.locals[1]["ty"] if len(cbody.locals) > 1 else ""
+                env = ("ref", False, x) if env_ty.startswith("&") else x
+                cargs = [env]
+                bads = []
+                descs = []
+                ok = True
+                for (csite, cexp) in cs.exports:
+                    for bad in cexp:
+                        nb = []
+                        for l in bad:
+                            sl = _subst_lin(l if isinstance(l, Lin) else l[1], cargs, rs)
+                            if sl is None or any(_has_unbound(at) for at in sl.co):
+                                ok = False
+                                break
+                            if not isinstance(l, Lin):
+                                lo, hi = rs.lin_interval(sl)
+                                sl = Lin.const(1).sub(sl) if lo >= 0 else (sl.add(Lin.const(1)) if hi <= 0 else ("ne", sl))
+                            nb.append(sl)
+                        if not ok:
+                            break
+                        bads.append(nb)
+                    descs.append(csite.kind + ":" + csite.desc)
+                    if not ok:
+                        break
+                s = Site(body.id, bi, ln, "precondition",
+                         "%s requires [%s]" % (x[2], "; ".join(sorted(set(descs)))), exp, detail=x[2])
+                s.callee = x[2]
+                if not ok:
+                    s.status = "residual"
+                    return s, None, []
+                return s, bads, []
         # workspace callee with exported preconditions
         callee = self.prog.bodies.get(f)
-        if callee is not None and callee.id != body.id:
+        if callee is not None and callee.id != body.id and callee.kind != "Closure":
             cs = self.summary(callee.id)
             if cs is not None and cs.exports:
                 bads = []
@@ -662,7 +712,14 @@ def _is_variant_test(e, x):
 PURE_CALLS = ("std::slice::len", "std::mem::size_of", "std::cmp::min", "std::cmp::max")
 
 
-def _expr_arg_only(e):
+def _has_unbound(e):
+    for x in walk(e):
+        if isinstance(x, tuple) and x and x[0] == "var" and x[1] == -1:
+            return True
+    return False
+
+
+def _expr_arg_only(e, closure=False):
     for x in walk(e):
         if not isinstance(x, tuple) or not x or not isinstance(x[0], str):
             continue
@@ -673,16 +730,33 @@ def _expr_arg_only(e):
             if not (any(path_matches(f, p) for p in PURE_CALLS) or _cast_kind(f)):
                 return False
         if x[0] == "deref":
-            # memory behind a reference parameter may change; only slices' lengths are stable
+            # memory behind a reference parameter may change; only slices' lengths are stable.
+            # Exception: the environment of a closure (captured variables are borrowed for the
+            # closure's whole life, so they cannot change between creation and call)
+            if closure and _env_rooted(x):
+                continue
             return False
     return True
 
 
-def _arg_only(l):
+def _env_rooted(e):
+    while True:
+        k = e[0]
+        if k == "arg":
+            return e[1] == 0
+        if k in ("deref", "field", "variant"):
+            e = e[1]
+        elif k == "ref":
+            e = e[2]
+        else:
+            return False
+
+
+def _arg_only(l, closure=False):
     if not isinstance(l, Lin):
         l = l[1]
     for a in l.co:
-        if not _expr_arg_only(a):
+        if not _expr_arg_only(a, closure):
             return False
     return True
 
